@@ -141,6 +141,9 @@ func cmdCheck(args []string) int {
 
 func (c *checker) raceEnv(logPrefix string) []string {
 	env := os.Environ()
+	if c.tier == "thorough" {
+		env = append(env, "VERIF_DEPTH=3")
+	}
 	if c.desc.NeedsRace {
 		env = append(env, "VERIF_LIN_BIN="+c.binPlain)
 		env = append(env, "GORACE=halt_on_error=0 exitcode=0 log_path="+logPrefix+" history_size=2")
@@ -717,6 +720,7 @@ func (c *checker) writeEvidence(agg *kit.Stats, distinct int, shift uint, sample
 		"real_vs_stub":        c.desc.RealVsStub,
 		"run_seed_derivation": fmt.Sprintf("run i uses Mix(VERIF_SEED=%d, i), i = 0..%d (stride over %d worker processes)", c.seed, agg.Runs-1, c.workers),
 		"workers":             c.workers,
+		"depth_factor":        map[string]int{"quick": 1, "thorough": 3}[c.tier],
 		"exhaustive":          false,
 	}
 	if shift > 0 {
